@@ -590,6 +590,7 @@ pub open spec fn nz(s: Seq<u32>) -> Seq<u32>
     decreases s.len()
 { if s.len() == 0 { Seq::empty() } else if s.last() != 0 { nz(s.drop_last()).push(s.last()) } else { nz(s.drop_last()) } }
 pub open spec fn strictly_increasing(s: Seq<u32>) -> bool { forall|i: int, j: int| 0 <= i < j < s.len() ==> s[i] < s[j] }
+pub open spec fn pairwise_distinct(s: Seq<u32>) -> bool { forall|i: int, j: int| 0 <= i < j < s.len() ==> s[i] != s[j] }
 pub proof fn lemma_lvl_pos(initial: int, k: nat)
     requires initial >= 0,
     ensures lvl(initial, k) >= 0, initial > 0 ==> lvl(initial, k) > 0,
@@ -640,7 +641,11 @@ fn single_pass_zoom_sizes(options: &BBIWriteOptions) -> (r: Vec<u32>)
     requires
         
         options.manual_zoom_sizes is None ==> lvl(options.initial_zoom_size as int, options.max_zooms as nat) <= u32::MAX,
+        
+        options.manual_zoom_sizes matches Some(z) ==> pairwise_distinct(nz(z@)),
     ensures
+        
+        pairwise_distinct(r@),
         
         options.manual_zoom_sizes matches Some(z) ==> r@ == nz(z@),
         
